@@ -144,6 +144,13 @@ Example C13_fresh_example :
   end.
 Proof. vm_compute. eexists _, _. repeat split; reflexivity. Qed.
 
+(* the item pushed by an arithmetic / bitwise instruction is an Integer whatever the item types of the operands (ByteString,
+   Boolean, Buffer operands are converted; no identity shortcut can leave the operand item in place) *)
+Theorem C13_arith_results_are_integers : forall e op p d d',
+  arith_op op = true -> exec_data e op p d = DOk d' -> exists z tl, d_es d' = IInt z :: tl.
+Proof. exact arith_results_are_integers. Qed.
+Print Assumptions C13_arith_results_are_integers.
+
 (* slot initialisation: INITSLOT succeeds iff NEITHER the local NOR the argument slot of the executing context exists yet - one
    guard for the pair (INITSLOT 1,0 followed by INITSLOT 0,1 faults like a plain repetition) -, the counts are not both
    zero and the arguments are on the stack; INITSSLOT iff the script has no static slot yet and the count is not zero *)
